@@ -69,7 +69,8 @@ def add_fp(d=I, ns=NSMASK, length=LEN, rsz=RSZ, ck=st.just(0), file=st.sampled_f
 
 
 def add_dir(d=I, ns=NSMASK, rsz=RSZ, sz=SZ):
-    return op('add_dir', d=d, ns=ns, sz=sz, rsz=rsz, usz=st.integers(0, 4), lead=I, salt=I, mode=DMODE, reuse=REUSE, magic=MAGIC)
+    return op('add_dir', d=d, ns=ns, sz=sz, rsz=rsz, usz=st.integers(0, 4), lead=I, salt=I, mode=DMODE, reuse=REUSE, magic=MAGIC,
+              rrm=st.sampled_from([0] * 14 + [1, 2, 3]))
 
 
 rm_file = op('rm_file', b=I, j=I)
@@ -100,6 +101,14 @@ rm_hybrid = op('rm_hybrid')
 rm_catlink = op('rm_catlink', j=I)
 bad = op('bad', w=st.integers(0, 200), wx=st.one_of(NONE, NONE, NONE, NONE, st.integers(0, 100)), wy=st.one_of(NONE, NONE, NONE, st.integers(0, 100)), i=I, to=I, len=st.sampled_from([0, 5, 2048, 70]), bit=st.booleans(), sz=SZ,
          rsz=st.sampled_from([0, 1, 2, 3, 3, 4, 5, 6]), usz=st.integers(0, 2), lead=I, salt=I)
+
+
+def weighted(pairs):
+    """one_of with weights.  (st.one_of drops repeated strategies, so repeating an alternative does not weight it: the
+    profile tables below are in effect uniform.  Here an index is drawn from a list with repeats.)"""
+    strategies = [s for s, _ in pairs]
+    idx = [i for i, (_, w) in enumerate(pairs) for _ in range(w)]
+    return st.sampled_from(idx).flatmap(lambda i: strategies[i])
 
 
 def finish(cfg, ops, avoid=True, rs=0):
@@ -474,6 +483,30 @@ def twoboots(cfg=None, reopen_ok=True):
     tail = st.lists(st.one_of(add_fp(length=SMALL_LEN), rm_file, write, add_dir(d=st.just(0)), add_boot), min_size=0, max_size=4)
     return program(c, st.builds(build, other, st.lists(BF, min_size=2, max_size=3), other, st.lists(add_boot, min_size=3, max_size=3), st.one_of(*mids),
                                 st.sampled_from([12, 12, 12, 3, 1]), st.one_of(*mids), tail))
+
+
+def relocname(cfg=None, reopen_ok=False):
+    """The default names of the relocation directory are taken by a directory of the user's: a chain of seven directories,
+    the (refused) attempt to add an eighth, then a relocation directory name of the user's choice and the eighth level
+    again - with edits in between and afterwards."""
+    c = cfg if cfg is not None else cfg_st(rr=st.sampled_from(['1.09', '1.10', '1.12']), level=st.sampled_from([1, 2, 3, 3]))
+    D = add_dir(ns=st.sampled_from([7, 7, 1, 3]), rsz=st.integers(0, 3), sz=st.integers(0, 2))
+
+    def build(mine, rrm, chain, b, sr, deep, between, tail):
+        ops = [dict(mine, d=0, reuse=0, rrm=rrm)]
+        ops += [dict(o, d=(0 if k == 0 else -1), reuse=0, rrm=0) for k, o in enumerate(chain)]
+        ops.append(dict(b, row='add_directory/relocation-name-taken'))
+        ops += between
+        ops.append(sr)
+        ops.append(dict(deep, d=7, reuse=0, rrm=0))        # pool of directories: root, the user's, the seven of the chain -> index 7 + 1 is the end of the chain
+        ops.append(dict(deep, d=8, reuse=0, rrm=0, salt=(deep.get('salt', 0) + 1) % 1000))
+        return ops + tail
+    tail_choices = [rm_dir, add_fp(d=I, length=SMALL_LEN), write, query, add_dir(d=I)]
+    if reopen_ok:
+        tail_choices += [reopen]
+    return program(c, st.builds(build, D, st.sampled_from([1, 1, 2, 3]), st.lists(D, min_size=7, max_size=7), bad, set_reloc, D,
+                                st.lists(st.one_of(add_fp(d=st.just(0), length=SMALL_LEN), write, query), min_size=0, max_size=2),
+                                st.lists(st.one_of(*tail_choices), min_size=0, max_size=5)))
 
 
 def reloctwins(cfg=None, reopen_ok=False):
